@@ -4,6 +4,7 @@ trace lines plus what the API returned."""
 from __future__ import annotations
 
 import hashlib
+import json
 import math
 import multiprocessing as mp
 import os
@@ -19,6 +20,7 @@ CLAUSE_OWNER = {"C03": "C03", "C04": "C04", "C11": "C11", "C12": "C12", "C15": "
 
 
 _TIMEOUTS: List[int] = []
+_CALCS: Dict[str, Any] = {}
 
 
 def owner(clause: str) -> str:
@@ -58,8 +60,17 @@ def run_fire(sc: Dict[str, Any], tid: int, keep_call: bool = False) -> Dict[str,
     {"defaults": m.PreferredUnits.defaults, "metric": m.loadMetricUnits, "mixed": m.loadMixedUnits,
      "imperial": m.loadImperialUnits}[preset]()
     shot = shots.build_shot(sc["shot"])
-    calc = shots.build_calc(sc.get("cfg"))
-    out: Dict[str, Any] = {"tid": tid, "sc": sc, "prefs": preset}
+    # LONG-USED calculators: scenarios with the same settings share one calculator for the whole check run (canted after
+    # upright after inclined shots, plain after extra-data requests, zeroing in between): every clause of every property is
+    # thereby also checked on a calculator with a history - whatever a calculator keeps from one call must not reach the next
+    ckey = json.dumps(sc.get("cfg"), sort_keys=True) + "|" + float(m.get_global_max_calc_step_size().raw_value).hex()
+    if sc.get("fresh_calc") or tid % 3 == 0:
+        calc = shots.build_calc(sc.get("cfg"))
+    else:
+        calc = _CALCS.get(ckey)
+        if calc is None:
+            calc = _CALCS[ckey] = shots.build_calc(sc.get("cfg"))
+    out: Dict[str, Any] = {"tid": tid, "sc": sc, "prefs": preset, "calc_reused": calc is _CALCS.get(ckey)}
     if sc.get("zero_yd"):
         try:
             calc.set_weapon_zero(shot, m.Unit.Yard(sc["zero_yd"]))
